@@ -38,34 +38,33 @@ eval_variable = Fn(FEV, "eval_variable", slot="resolver", ret="res", key="eval_v
 )
 
 maybe_get = Fn("src/asm/defs/mod.rs", "maybe_get", impl="<T> DefList<T>", impl_header="<T> DefList<T>", slot="asm", ret="res", key="DefList::maybe_get", props=["C03"],
-    requires=[C("no_hole_at_the_reference", "item_ref.0 < self.defs@.len() ==> self.defs@[item_ref.0 as int] is Some", ["C03"])],
     ensures=[C("item_or_none", "(match res { Some(x) => item_ref.0 < self.defs@.len() && self.defs@[item_ref.0 as int] == Some(*x), None => item_ref.0 >= self.defs@.len() || self.defs@[item_ref.0 as int] is None })", ["C03"])])
 
 GTARGET = "lookup_target(decls, Seq::<String>::empty(), old(query).hierarchy_level, old(query).hierarchy@)"
 eval_variable_certain = Fn(FEV, "eval_variable_certain", slot="resolver", ret="res", key="eval_variable_certain", props=["C15", "C03"],
     closures={1: ("|s: &asm::Symbol| -> (r: expr::Value)\n            ensures r == s.value\n       ", "")},
     requires=[C("path_nonempty", "old(query).hierarchy@.len() >= 1", ["C03"]), C("table_wf", "decls.symbols.wf()", ["C03"]),
-              C("no_holes_among_defined_symbols", "forall|i: int| 0 <= i < defs.symbols.defs@.len() ==> #[trigger] defs.symbols.defs@[i] is Some", ["C03"])],
+ ],
     ensures=[
         C("err_is_loud", "res is Err ==> final(query).report.msgs() > old(query).report.msgs()", ["C03", "C15"]),
         C("never_unknown", "res is Ok ==> !(res->Ok_0 is Unknown)", ["C15"]),
-        C("a_reference_is_its_declarations_value", "res is Ok ==> %s is Some && (%s->0).0 < defs.symbols.defs@.len() && res->Ok_0 == defs.symbols.defs@[(%s->0).0 as int]->0.value" % (GTARGET, GTARGET, GTARGET), ["C15"]),
+        C("a_reference_is_its_declarations_value", "res is Ok ==> %s is Some && (%s->0).0 < defs.symbols.defs@.len() && defs.symbols.defs@[(%s->0).0 as int] is Some && res->Ok_0 == defs.symbols.defs@[(%s->0).0 as int]->0.value" % (GTARGET, GTARGET, GTARGET, GTARGET), ["C15"]),
         C("undeclared_name_is_an_error", "%s is None ==> res is Err" % GTARGET, ["C15"]),
-        C("a_dotted_path_is_never_the_address", "%s is Some && (%s->0).0 < defs.symbols.defs@.len() && !(defs.symbols.defs@[(%s->0).0 as int]->0.value is Unknown)"
-          " && !(old(query).hierarchy_level == 0 && old(query).hierarchy@.len() == 1) ==> res is Ok" % (GTARGET, GTARGET, GTARGET), ["C15"]),
+        C("a_dotted_path_is_never_the_address", "%s is Some && (%s->0).0 < defs.symbols.defs@.len() && defs.symbols.defs@[(%s->0).0 as int] is Some && !(defs.symbols.defs@[(%s->0).0 as int]->0.value is Unknown)"
+          " && !(old(query).hierarchy_level == 0 && old(query).hierarchy@.len() == 1) ==> res is Ok" % (GTARGET, GTARGET, GTARGET, GTARGET), ["C15"]),
     ],
 )
 
 eval_variable_simple = Fn(FEV, "eval_variable_simple", slot="resolver", ret="res", key="eval_variable_simple", props=["C15", "C03"],
     requires=[C("path_nonempty", "query.hierarchy@.len() >= 1", ["C03"]), C("table_wf", "decls.symbols.wf()", ["C03"]),
-              C("no_holes_among_defined_symbols", "forall|i: int| 0 <= i < defs.symbols.defs@.len() ==> #[trigger] defs.symbols.defs@[i] is Some", ["C03"])],
+ ],
     ensures=[
         C("never_fails", "res is Ok", ["C03"]),
-        C("a_known_reference_is_its_declarations_value", "!(res->Ok_0 is Unknown) ==> %s is Some && (%s->0).0 < defs.symbols.defs@.len() && res->Ok_0 == defs.symbols.defs@[(%s->0).0 as int]->0.value" % (GTARGET, GTARGET, GTARGET), ["C15"]),
-        C("a_dotted_path_is_never_the_address", "%s is Some && (%s->0).0 < defs.symbols.defs@.len() && !(old(query).hierarchy_level == 0 && old(query).hierarchy@.len() == 1)"
-          " ==> res->Ok_0 == defs.symbols.defs@[(%s->0).0 as int]->0.value" % (GTARGET, GTARGET, GTARGET), ["C15"]),
+        C("a_known_reference_is_its_declarations_value", "!(res->Ok_0 is Unknown) ==> %s is Some && (%s->0).0 < defs.symbols.defs@.len() && defs.symbols.defs@[(%s->0).0 as int] is Some && res->Ok_0 == defs.symbols.defs@[(%s->0).0 as int]->0.value" % (GTARGET, GTARGET, GTARGET, GTARGET), ["C15"]),
+        C("a_dotted_path_is_never_the_address", "%s is Some && (%s->0).0 < defs.symbols.defs@.len() && defs.symbols.defs@[(%s->0).0 as int] is Some && !(old(query).hierarchy_level == 0 && old(query).hierarchy@.len() == 1)"
+          " ==> res->Ok_0 == defs.symbols.defs@[(%s->0).0 as int]->0.value" % (GTARGET, GTARGET, GTARGET, GTARGET), ["C15"]),
     ],
-    closures={1: ("|s: util::ItemRef<asm::Symbol>| -> (r: Option<&asm::Symbol>)\n            requires s.0 < defs.symbols.defs@.len() ==> defs.symbols.defs@[s.0 as int] is Some\n            ensures (match r { Some(x) => s.0 < defs.symbols.defs@.len() && defs.symbols.defs@[s.0 as int] == Some(*x), None => s.0 >= defs.symbols.defs@.len() })\n       ", "")},
+    closures={1: ("|s: util::ItemRef<asm::Symbol>| -> (r: Option<&asm::Symbol>)\n            ensures (match r { Some(x) => s.0 < defs.symbols.defs@.len() && defs.symbols.defs@[s.0 as int] == Some(*x), None => s.0 >= defs.symbols.defs@.len() || defs.symbols.defs@[s.0 as int] is None })\n       ", "")},
 )
 
 check_unused_defines = Fn("src/asm/mod.rs", "check_unused_defines", slot="asm", ret="res", key="check_unused_defines", props=["C16", "C03"],
